@@ -144,9 +144,10 @@ def obligations(tier, rng):
            ('since', X, Y), ('since_t', X, Y, 0, 1), ('add', X, Y), ('once', ('not', X))]
     for f in dfs:
         two = len(variables(f)) > 1
-        for k in ([0, 1] if quick else [0, 1, 2]):
-            out.append(ob('C10', 'ct', 'ct/%s/k=%d' % (text(f), k), f=f, k=k, m=1 if two else 2, n=dn if not two else 2,
-                          max_paths=30000, wall=900))
+        timed = refsem.has(f, {'once_t', 'historically_t', 'since_t'})
+        for k in ([0, 1] if quick or (two and timed) else [0, 1, 2]):
+            out.append(ob('C10', 'ct', 'ct/%s/k=%d' % (text(f), k), f=f, k=k, m=1 if (two or (timed and not quick)) else 2,
+                          n=dn if not two else 2, max_paths=60000, wall=900))
     for f in [('once', X), ('once_t', X, 0, 1), ('since', X, Y)]:
         two = len(variables(f)) > 1
         out.append(ob('C10', 'ct', 'ct/%s/k=1/resets=2' % text(f), f=f, k=1, m=1, n=2, rounds=2, max_paths=30000, wall=900))
